@@ -109,7 +109,9 @@ func NewInterceptingListener(
 		baseTlsConf:                  config.BaseTlsConfiguration,
 		fetchCredsFn:                 config.FetchCredsFunc,
 		generateServerCertificatesFn: config.GenerateServerCertificatesFunc,
-		options:                      config.Options,
+		// Cap the slice at its length so that per-connection appends always
+		// copy instead of writing into the caller's (shared) backing array
+		options: config.Options[:len(config.Options):len(config.Options)],
 	}
 
 	if l.fetchCredsFn == nil {
